@@ -218,6 +218,14 @@ func (mux *abciMux) ApplySnapshotChunk(req types.RequestApplySnapshotChunk) type
 			"err", err,
 		)
 
+		// The restorer has already aborted the restore, but the multipart insert needs to be aborted
+		// as well, otherwise the next offered snapshot cannot be restored.
+		if err = mux.state.storage.NodeDB().AbortMultipartInsert(); err != nil {
+			mux.logger.Error("failed to abort multipart restore: %w",
+				"err", err,
+			)
+		}
+
 		// Given that snapshot was invalid, the sender must have been malicious.
 		return types.ResponseApplySnapshotChunk{
 			Result:        types.ResponseApplySnapshotChunk_REJECT_SNAPSHOT,
